@@ -1,9 +1,15 @@
 """C29 extension (batch d08): "a refused porcelain operation changes nothing" for
 Restore, Add, Commit, Merge and Pull, plus refusals forced by injected
-filesystem faults.  NOT a property module: props/C29.py appends SUITES_OPS to its
-SUITES and THEOREMS_OPS to its THEOREMS (Properties/C29.v must then
-`Require Export Properties.C29Ops`); `python3 props/c29ops_dev.py` runs these
-suites alone through the shared runner during development.
+filesystem faults.  NOT a property module.  Integration into C29 (verified in a
+scratch copy, `./check C29` = 352 cases, 0 broken):
+  props/C29.py            from props import c29ops_lib as _O
+                          SUITES = [Main()] + _O.SUITES_OPS;  THEOREMS = THEOREMS + _O.THEOREMS_OPS
+                          MODEL_FILES = MODEL_FILES + ["PorcelainOps.v"];  MODELLED += "; " + _O.MODELLED_OPS;  TRUSTED += _O.TRUSTED_OPS
+  Properties/C29.v        From GoGit Require Export Properties.C29Ops.
+  ./mkmanifest.py         (merges findings/C29ops.json into known_findings.json)
+  /repo                   cherry-pick "fix: decide the unstaged-changes refusal of Pull before the branch is moved"
+`python3 props/c29ops_dev.py [--tier ..] [--seed N] [--suite ops|opsfault]` runs these suites alone
+through the shared runner (what ./check C29 will do with them).
 
 A case is a repository recipe (harness/cmd/c29ops):
   commits: [{"tree": [[path, kind, content], ...], "parents": [n, ...]}, ...]   parents have smaller numbers
